@@ -31,6 +31,8 @@ CONSTANTS GaussCounts,   \* subset of 1..3 : number of Gaussians
           WOrders,       \* subset of 0..3 : order of the width dispersion polynomial
           WOrderCap,     \* thinning of the order product: (co, wo) is enumerated iff wo <= WOrderCap or co = wo
           NormOpts,      \* subset of BOOLEAN
+          BacksweepOpts, \* subset of BOOLEAN: the periodic-excitation ("backsweep") term; Effective(i) does not depend on it, the relations
+                         \* PerIndex and Linear must hold with it as without it (it is linear in the per-Gaussian terms)
           AxisVars,      \* subset of 1..4 : which global axis
           WithErrors,    \* BOOLEAN : also enumerate the illegal shapes (2,3) and (3,2)
           WithAsym       \* BOOLEAN : also enumerate the single-Gaussian asymptote lattice
@@ -95,7 +97,7 @@ Prefix(s, n) == [k \in 1..n |-> s[k]]
 
 DefaultCfg == [nc |-> 1, nw |-> 1, scalar |-> FALSE, valVar |-> 1, centres |-> <<Zero>>, widths |-> <<One>>,
                hasScale |-> FALSE, shiftVar |-> 0, spectral |-> FALSE, wn |-> FALSE,
-               cdisp |-> <<>>, wdisp |-> <<>>, dcentre |-> DispCentre, normalize |-> TRUE, axisVar |-> 1, axis |-> AxisTab[1]]
+               cdisp |-> <<>>, wdisp |-> <<>>, dcentre |-> DispCentre, normalize |-> TRUE, axisVar |-> 1, axis |-> AxisTab[1], backsweep |-> FALSE]
 DefaultAsym == [k |-> Zero, w |-> One, c |-> Zero, m |-> 0, t |-> Zero]
 
 -------------------------------------------------------------------------------
@@ -175,10 +177,11 @@ ChooseDispersion(sp, co, wo, wn) ==
                         !.cdisp = Prefix(CDispTab[cfg.valVar], co), !.wdisp = Prefix(WDispTab[cfg.valVar], wo)]
   /\ UNCHANGED asym
 
-ChooseNormAxis(nm, av) ==
+ChooseNormAxis(nm, av, bs) ==
   /\ stage = 4 /\ stage' = 5
   /\ cfg.shiftVar = 0 \/ Len(AxisTab[av]) <= Len(ShiftTab[1])
-  /\ cfg' = [cfg EXCEPT !.normalize = nm, !.axisVar = av, !.axis = AxisTab[av]]
+  /\ bs => av = 1                                        \* thin the product: the backsweep term with the first axis only
+  /\ cfg' = [cfg EXCEPT !.normalize = nm, !.axisVar = av, !.axis = AxisTab[av], !.backsweep = bs]
   /\ UNCHANGED asym
 
 ChooseAsym(p, c, m) ==
@@ -192,7 +195,7 @@ INext == \/ \E sh \in LegalShapes \cup ErrorShapes, sc \in BOOLEAN : (sc => sh =
          \/ \E v \in ValVars, hs \in ScaleOpts : ChooseValues(v, hs)
          \/ \E sv \in ShiftVars : ChooseShift(sv)
          \/ \E sp \in BOOLEAN, co \in COrders, wo \in WOrders, wn \in BOOLEAN : ChooseDispersion(sp, co, wo, wn)
-         \/ \E nm \in NormOpts, av \in AxisVars : ChooseNormAxis(nm, av)
+         \/ \E nm \in NormOpts, av \in AxisVars, bs \in BacksweepOpts : ChooseNormAxis(nm, av, bs)
          \/ \E p \in AsymPairs, c \in AsymCentres, m \in AsymOffsets : ChooseAsym(p, c, m)
 
 ISpec == IInit /\ [][INext]_ivars
